@@ -156,7 +156,7 @@ Theorem step_op_refines st o :
   fst (step_op st o) = OK -> spec_step_op st o = (SOk, snd (step_op st o)).
 Proof.
   unfold invb. intros I C. apply andb_prop in I as [R I].
-  destruct o as [s l|id s args|r id k v|id f g v|id k|id v|ko id s args]; simpl.
+  destruct o as [s l|id s args|r id k v|id f g v|id k|id v|ko id s args|pid id|pid v]; simpl.
   - (* Declare *)
     destruct (declare st s l) as [oc st']. simpl. intros ->. auto.
   - (* Construct *)
@@ -213,6 +213,16 @@ Proof.
     { intros k v0 IN. apply in_map_iff in IN as [[f0 v1] [EQ IN]]. inversion EQ; subst.
       rewrite forallb_forall in CV. apply (CV (f0, v0)). apply sort_args_in; auto. }
     rewrite (make_hash_spec _ _ _ _ _ R CC M). auto.
+  - (* TakePtr *)
+    destruct (take_ptr st pid id) as [oc st']. simpl. intros ->. auto.
+  - (* DerefSetP *)
+    destruct (alookup pid (st_ptrs st)) as [[id [s g]]|] eqn:P; [|simpl; discriminate].
+    destruct (alookup id (st_store st)) as [i|] eqn:A; [|simpl; discriminate].
+    destruct (negb (value_ok st v)); [simpl; discriminate|].
+    destruct v; try (simpl; discriminate).
+    destruct (alookup id0 (st_store st)) as [ij|] eqn:AJ; [|simpl; discriminate].
+    destruct (ptr_matches st s g ij); [|simpl; discriminate]. simpl. intros _.
+    simpl in C. rewrite P, A, AJ in C. apply andb_prop in C as [E C]. rewrite E, C. auto.
 Qed.
 
 (* the statement that carries the property from the model of the code to the specification *)
